@@ -39,7 +39,7 @@ type chanCore struct {
 	buf    []any
 	closed bool
 	isDone bool // a context's Done channel
-	NRecv  int // values dequeued (statistics for oracles)
+	NRecv  int  // values dequeued (statistics for oracles)
 	NSend  int
 }
 
@@ -187,10 +187,16 @@ type Exec struct {
 	// that consults the context whenever it is about to proceed must terminate after cancel; an execution that
 	// runs into the horizon shows that the context is not consulted on that path.
 	DonePriority bool
-	Symmetry   bool             // identify states up to permutation of sibling library goroutines (see Key)
-	Cells      []*int           // shared cells (env.Shared) - part of the state
-	Watches    []Watcher        // evaluated by oracles on the terminal state
-	Final      map[string]bool  // results of the watches at the end of the execution
+	// ArmCost makes every choice other than the default one (keep running the current thread, else the lowest
+	// thread id; first ready select arm) cost one deviation: a preemption, another thread at a blocking point,
+	// another ready select arm, another rendezvous partner. Long scenarios are explored up to a deviation bound
+	// instead of a preemption bound (free choices alone multiply by two or three at every loop iteration)
+	ArmCost   bool
+	Symmetry  bool            // identify states up to permutation of sibling library goroutines (see Key)
+	Cells     []*int          // shared cells (env.Shared) - part of the state
+	sharedSeq [2]uint64       // hash of the thread order of SharedOp accesses - part of the state
+	Watches   []Watcher       // evaluated by oracles on the terminal state
+	Final     map[string]bool // results of the watches at the end of the execution
 }
 
 // X is the execution in progress (one per process at a time).
@@ -603,6 +609,9 @@ func (x *Exec) Key() [2]uint64 {
 	for _, c := range x.Cells {
 		parts = append(parts, "c"+strconv.Itoa(*c))
 	}
+	if x.sharedSeq != [2]uint64{} {
+		parts = append(parts, "s"+strconv.FormatUint(x.sharedSeq[0], 16)+strconv.FormatUint(x.sharedSeq[1], 16))
+	}
 	if x.KeyLast && x.last != nil {
 		parts = append(parts, "last"+x.last.ID)
 	}
@@ -672,6 +681,11 @@ func Run(root func(), ch Chooser, cfg func(*Exec)) *Exec {
 				if tr.t != x.last {
 					cost[i] = 1
 				}
+			}
+		}
+		if x.ArmCost {
+			for i := 1; i < len(ts); i++ {
+				cost[i] = 1
 			}
 		}
 		i := x.chooser.Choose(x, len(ts), cost)
